@@ -70,6 +70,10 @@ pub fn clean_traps(b: &mut Board) {
     }
 }
 
+/// move numbers from here on are "at the edge": a run that starts there is cut short (see
+/// game.rs), so that the counter (a usize) cannot run over during the run itself
+pub const EDGE_MOVE_NUMBER: u128 = (1u128 << 64) - (1u128 << 13);
+
 fn move_number(rng: &mut Rng) -> u128 {
     match rng.below(6) {
         0 => 2,
@@ -775,8 +779,13 @@ fn mobility_board(rng: &mut Rng, to_move: Side) -> Board {
     let mut b = random_board(rng, 3, true);
     let score = |b: &Board| Model::from_position(*b, to_move, 2).legal().len();
     let mut best = score(&b);
-    let iters = if rng.chance(0.2) { 1500 + rng.below(1500) } else { 60 + rng.below(500) };
-    for _ in 0..iters {
+    // one climb in twelve is a long one with annealing (a slightly worse board is sometimes
+    // accepted in the first two thirds): these reach the far tail, 75-80 legal first steps
+    let deep = rng.chance(0.08);
+    let iters = if deep { 14_000 } else if rng.chance(0.2) { 1500 + rng.below(1500) } else { 60 + rng.below(500) };
+    let mut best_board = b;
+    let mut best_ever = best;
+    for it in 0..iters {
         // move one piece to a random empty square (rabbits stay off their goal rank)
         let from = Sq(rng.below(64) as u8);
         let to = Sq(rng.below(64) as u8);
@@ -794,12 +803,21 @@ fn mobility_board(rng: &mut Rng, to_move: Side) -> Board {
             continue;
         }
         let sc = score(&c);
-        if sc >= best {
+        let anneal = deep && it < iters * 2 / 3 && sc + 2 >= best && rng.chance(0.05);
+        if sc >= best || anneal {
             best = sc;
             b = c;
+            if sc > best_ever {
+                best_ever = sc;
+                best_board = c;
+            }
         }
     }
-    b
+    if deep {
+        best_board
+    } else {
+        b
+    }
 }
 
 /// a completely filled block of squares at an edge or in a corner (pieces of both sides, types
